@@ -128,6 +128,30 @@ func (o *oracles) finalC11(final snap) {
 		// A jump-ahead view is a view of its round too: never older or smaller than what the state machine was
 		// already given for that round.
 		o.monObserve("state-machine", sm, r.v.JumpAheadRoundView, false)
+		// The votes that justified skipping ahead travel in the jump-ahead view: at least a Byzantine minority of
+		// prevotes or of precommits for the later round (or the view is a committing view, which holds more).
+		if j := r.v.JumpAheadRoundView; j != nil && j.Height == r.h && j.Round > r.r && len(j.ValidatorSet.Validators) > 0 {
+			vals := j.ValidatorSet.Validators
+			var avail uint64
+			for _, x := range vals {
+				avail += x.Power
+			}
+			distinct := func(proofs map[string]gcrypto.CommonMessageSignatureProof) uint64 {
+				var union, bs bitset.BitSet
+				for _, pr := range proofs {
+					pr.SignatureBitSet(&bs)
+					union.InPlaceUnion(&bs)
+				}
+				return powerOf(vals, &union)
+			}
+			pv, pc := distinct(j.PrevoteProofs), distinct(j.PrecommitProofs)
+			o.res.Count("jump_ahead_views_justification_checked", 1)
+			if min := tmconsensus.ByzantineMinority(avail); pv < min && pc < min {
+				o.violate("C11", "jump-ahead-view-without-the-votes-that-justify-skipping",
+					fmt.Sprintf("state machine in %d/%d was told to jump to %d/%d by a view holding prevote power %d and precommit power %d; skipping needs %d of %d",
+						r.h, r.r, j.Height, j.Round, pv, pc, min, avail))
+			}
+		}
 	}
 	if !final.ok {
 		return
